@@ -151,6 +151,16 @@ def cases(tier, seed):
                                 if key not in seen:
                                     seen.add(key)
                                     out.append(cfgE)
+        # [H] the object's parameter is re-assigned between the forward call and the backward pass
+        for fam in FAMS:
+            for rep in ("nn", "edit"):
+                for m in (["rk4", "rk45"] if quick else list(METHODS)):
+                    for g in ["inc4", "rag7-dec"]:
+                        for rg in ["y0+p+w+ts", "ts", "w+ts"]:
+                            for od in ORDERS:
+                                cfgH = _case(fam, rep, m, "inherit", g, rg, "dense", od, pl, seed)
+                                cfgH["mut"] = 1
+                                out.append(cfgH)
         # [F] tiny cotangents (gradients must be exactly linear in the incoming cotangent)
         for fam in FAMS:
             for m in (["rk4", "rk45"] if quick else list(METHODS)):
@@ -418,6 +428,16 @@ def _experiment(cfg, v, m):
     if o.exc is not None:
         return {"viol": V("exception:%s" % o.exc_sig, {"message": str(o.exc)[:300]}, stage="forward")}
     yt = o.value
+    if cfg.get("mut") and mod is not None:
+        # object history: after the forward call the user's object is given OTHER parameter values (as in a
+        # training loop that reuses one module); the backward pass of the first result must not see them
+        with torch.no_grad():
+            neww = w_obj.detach() * 1.7 + 0.3
+        if rep == "nn":
+            mod.w = torch.nn.Parameter(neww, requires_grad=w_obj.requires_grad)
+        else:
+            mod.w = neww.requires_grad_(w_obj.requires_grad)
+        w_after_mut = mod.w
     rows = [q[::m] for q in yt] if tuple_state else [yt[::m]]
     L = sum((r * ct).sum() for r, ct in zip(rows, cots))
     # gradients are linear in the cotangent: the loss is scaled by `cscale` (e.g. 1e-10) before and the gradients
@@ -448,6 +468,9 @@ def _experiment(cfg, v, m):
         return {"viol": V("exception:%s" % o.exc_sig, {"message": str(o.exc)[:300]},
                           stage="backward" if order == "1" else "backward-create_graph")}
     g1 = dict(zip(names, [None if t is None else t / cs for t in o.value] if cs != 1.0 else o.value))
+    if cfg.get("mut") and mod is not None and mod.w is not w_after_mut:
+        return {"viol": V("object-attribute-reverted-by-the-backward-pass",
+                          {"attribute": "w", "holds_forward_time_tensor": bool(mod.w is w_obj)}, stage="backward")}
     res = {"g1": {x: (None if t is None else t.detach().clone()) for x, t in g1.items()}, "names": names,
            "rows": [r.detach().clone() for r in rows]}
     if order == "2":
